@@ -167,7 +167,12 @@ class ProgGen:
         if r < 0.57:
             return ["base", self.unit_str(ci)]
         if r < 0.60 and info.systems:
-            return ["base_sys", self.unit_str(ci), rng.choice(info.systems)]
+            u = self.unit_str(ci)
+            # the same unit is asked about under the default system right afterwards
+            self.pools[ci].append(["base", u])
+            self.pools[ci].append(["tobase", x, u])
+            self.pending_q = ["base", u]
+            return ["base_sys", u, rng.choice(info.systems)]
         if r < 0.64:
             return ["dim", self.unit_str(ci)]
         if r < 0.71:
@@ -235,10 +240,23 @@ class ProgGen:
             else:
                 q = self.question(ci)
                 pool.append(q)
+                if getattr(self, "pending_q", None):
+                    self.pending = [{"c": ci, "k": "ask", "q": self.pending_q}]
+                    self.pending_q = None
             return {"id": sid, "c": ci, "k": "ask", "q": q}
         if r < 0.64:
             line = self.define_line(ci)
             if line:
+                name = line.split("=")[0].strip()
+                if not line.startswith("@") and not name.endswith("-") and rng.random() < 0.6:
+                    # the spelling is asked about before it is defined (it may already mean something,
+                    # e.g. prefix + unit, or nothing) and again afterwards
+                    before = rng.choice([["parse_units", name, {}], ["compat", name], ["dim", name], ["root", name],
+                                         ["conv", "2", name, info.units[0]]])
+                    after = rng.choice([["conv", "2", name, info.units[0]], ["root", name], ["parse_units", name, {}], before])
+                    self.pools[ci].append(after)
+                    self.pending = [{"c": ci, "k": "define", "line": line}, {"c": ci, "k": "ask", "q": after}]
+                    return {"id": sid, "c": ci, "k": "ask", "q": before}
                 return {"id": sid, "c": ci, "k": "define", "line": line}
             return {"id": sid, "c": ci, "k": "gc"}
         if r < 0.72 and info.contexts:
